@@ -149,18 +149,34 @@ Definition shape_eqb (a b : shape) : bool :=
   cmp_eqb (m_tie_pos_cmp a) (m_tie_pos_cmp b) && bound_eqb (m_bound a) (m_bound b) &&
   cmp_eqb (m_first_cmp a) (m_first_cmp b).
 
+Lemma cmp_eqb_eq a b : cmp_eqb a b = true -> a = b.
+Proof. destruct a, b; simpl; intros E; try discriminate E; reflexivity. Qed.
+Lemma pad_eqb_eq a b : pad_eqb a b = true -> a = b.
+Proof. destruct a, b; simpl; intros E; try discriminate E; reflexivity. Qed.
+Lemma end_eqb_eq a b : end_eqb a b = true -> a = b.
+Proof. destruct a, b; simpl; intros E; try discriminate E; reflexivity. Qed.
+Lemma order_eqb_eq a b : order_eqb a b = true -> a = b.
+Proof. destruct a, b; simpl; intros E; try discriminate E; reflexivity. Qed.
+Lemma bound_eqb_eq a b : bound_eqb a b = true -> a = b.
+Proof. destruct a, b; simpl; intros E; try discriminate E; reflexivity. Qed.
+Lemma init_eqb_eq a b : init_eqb a b = true -> a = b.
+Proof. destruct a, b; simpl; intros E; try discriminate E; reflexivity. Qed.
+
 Lemma shape_eqb_eq a b : shape_eqb a b = true -> a = b.
 Proof.
-  destruct a, b. unfold shape_eqb. simpl. intros H.
+  unfold shape_eqb.
+  intros H.
   repeat (apply andb_prop in H; destruct H as (H & ?)).
   repeat match goal with
   | E : Bool.eqb _ _ = true |- _ => apply Bool.eqb_prop in E
-  | E : cmp_eqb ?x ?y = true |- _ => destruct x, y; try discriminate E; clear E
-  | E : pad_eqb ?x ?y = true |- _ => destruct x, y; try discriminate E; clear E
-  | E : end_eqb ?x ?y = true |- _ => destruct x, y; try discriminate E; clear E
-  | E : order_eqb ?x ?y = true |- _ => destruct x, y; try discriminate E; clear E
-  | E : bound_eqb ?x ?y = true |- _ => destruct x, y; try discriminate E; clear E
-  | E : init_eqb ?x ?y = true |- _ => destruct x, y; try discriminate E; clear E
+  | E : cmp_eqb _ _ = true |- _ => apply cmp_eqb_eq in E
+  | E : pad_eqb _ _ = true |- _ => apply pad_eqb_eq in E
+  | E : end_eqb _ _ = true |- _ => apply end_eqb_eq in E
+  | E : order_eqb _ _ = true |- _ => apply order_eqb_eq in E
+  | E : bound_eqb _ _ = true |- _ => apply bound_eqb_eq in E
+  | E : init_eqb _ _ = true |- _ => apply init_eqb_eq in E
   | E : idx_eqb _ _ = true |- _ => apply idx_eqb_eq in E
-  end; subst; reflexivity.
+  end.
+  destruct a, b. simpl in *.
+  subst. reflexivity.
 Qed.
